@@ -25,7 +25,7 @@ def setup():
     table, impls, virtuals = catc.cat_contracts()
     I = Interp(w, table)
     pr.install_etree(I)
-    cs = [pr.ResolveRec(), pr.ResolveDependencies(), pr.XmlRec(), pr.XmlProcessTree()]
+    cs = [pr.ResolveRec(), pr.ResolveDependencies(), pr.XmlRec(), pr.XmlProcessTree(), pr.JsonCategory(), pr.JsonRec()]
     for c in cs:
         I.contracts[c.name] = c
     return w, I, cs
@@ -47,7 +47,8 @@ def run_job(kind, key):
 def main(tier='quick', seed=0):
     t0 = time.time()
     jobs = [('contract', 'depccg/printer/conll.py::_resolve_dependencies.rec'), ('contract', 'depccg/printer/conll.py::_resolve_dependencies'),
-            ('contract', 'depccg/printer/xml.py::_process_tree.rec'), ('contract', 'depccg/printer/xml.py::_process_tree'), ('view', 'tree.py')]
+            ('contract', 'depccg/printer/xml.py::_process_tree.rec'), ('contract', 'depccg/printer/xml.py::_process_tree'),
+            ('contract', 'depccg/printer/my_json.py::json_of.rec'), ('view', 'tree.py')]
     results = engine.run_jobs('props.c07', jobs)
     records, errors = [], []
     for r in results:
@@ -57,7 +58,7 @@ def main(tier='quick', seed=0):
     pr.replay_views(records)
     assumptions = [
         'deductive part: the conll dependency column, and the element structure of C&C xml (`_process_tree`: one lf per word with start = its offset counted from 0 per tree, span 1, its category text and its token\'s attributes; '
-        'one rule element per inner node with its label and category text, children in order) as equality with the recursive spec encoding enc_xml(tree, 0). Tree view Leaf | Un | Bin(head_is_left) with the attribute meanings checked against the real tree.py properties on the three shapes Tree.__init__ admits; '
+        'one rule element per inner node with its label and category text, children in order) as equality with the recursive spec encoding enc_xml(tree, 0); the json record of a node as json_of(tree) builds it (leaf: the items of the token plus cat; inner node: type, cat text, children in order) as equality with enc_json - the branch full=True is not reachable from to_string and raises AttributeError (Atom.features does not exist): outside the listed properties. Tree view Leaf | Un | Bin(head_is_left) with the attribute meanings checked against the real tree.py properties on the three shapes Tree.__init__ admits; '
         'python lists as z3 arrays with a length; the recursive calls of rec are replaced by its contract (structural induction: the induction principle is the meta-rule); '
         'len([x for x in xs if p(x)]) is axiomatised as 0 / 1 / >= 2 matching elements; lemma nleaves-positive by structural induction',
         'assumed contracts: lxml etree.Element / SubElement / set / append build the element they are told to (lxml is not importable under the verifier); Tree.tokens lists the tokens of the leaves in order; '
@@ -68,7 +69,7 @@ def main(tier='quick', seed=0):
         'lxml serialise/parse round trip preserves tags, attributes and order for XML-representable strings',
     ]
     extra = dict(functions_under_contract=['depccg/printer/conll.py::_resolve_dependencies', 'depccg/printer/conll.py::_resolve_dependencies.rec',
-                                           'depccg/printer/xml.py::_process_tree', 'depccg/printer/xml.py::_process_tree.rec',
+                                           'depccg/printer/xml.py::_process_tree', 'depccg/printer/xml.py::_process_tree.rec', 'depccg/printer/my_json.py::json_of.rec',
                                            'depccg/tree.py::Tree.is_leaf / is_unary / child / left_child / right_child / head_is_left (view lemma)'],
                  bounded_functions=['all encoders of depccg/printer', 'depccg/tools/reader.py', 'depccg/tools/ja/reader.py'])
     return c12.finish_with(PROP, tier, seed, t0, records, errors, extra, assumptions, ['printers_real.py'], level='exploration')
